@@ -63,6 +63,7 @@ Fixpoint alt_strings (e : pexpr) : list (list N) :=
   match e with
   | PAlt a b => alt_strings a ++ alt_strings b
   | PStr s => [s]
+  | PSeq a (PNot _) => alt_strings a          (* the alternatives may be followed by a boundary look-ahead *)
   | _ => []
   end.
 Definition generated_control_names : list (list N) :=
